@@ -25,6 +25,7 @@ MODULES = ["TLX.Props.Translated"]
 HT = "TLX.Quic.HType"
 PT = "TLX.Quic.PType"
 VER = "TLX.Session.Ver"
+QDEC = "TLX.Quic.Session.Dec"
 
 HTYPE = {"QuicHeaderType.LONG": (f"{HT}.long", HT), "QuicHeaderType.SHORT": (f"{HT}.short", HT)}
 PTYPE = {f"QuicPacketType.{a}": (f"{PT}.{b}", PT) for a, b in
@@ -33,7 +34,7 @@ PTYPE = {f"QuicPacketType.{a}": (f"{PT}.{b}", PT) for a, b in
 TLSVER = {f"TlsVersion.{a}": (f"{VER}.{b}", VER) for a, b in
           [("SSL30", "ssl30"), ("TLS10", "tls10"), ("TLS11", "tls11"), ("TLS12", "tls12"), ("TLS13", "tls13")]}
 
-IMPORTS = ["TLX.PyRt", "TLX.Quic.Packet", "TLX.Session"]
+IMPORTS = ["TLX.PyRt", "TLX.Quic.Packet", "TLX.Quic.Session", "TLX.Session"]
 
 SPECS = [
     dict(name="get_header_type", file="tlexport/quic/quic_dissector.py", func="get_header_type",
@@ -49,6 +50,25 @@ SPECS = [
          places=[("quic_packet.isserver", "isserver", "Bool", "r"), ("quic_packet.packet_num", "packet_num", "Bytes", "r"),
                  ("self.packet_number_server[PACKET_TYPE_MAP[quic_packet.packet_type]]", "pn_server", "Int", "rw"),
                  ("self.packet_number_client[PACKET_TYPE_MAP[quic_packet.packet_type]]", "pn_client", "Int", "rw")]),
+    # check_key_epoch: the epoch flip (first statement) and the test of the second `if`; the body of the second `if`
+    # calls key_update (cryptography) and is not translated
+    dict(name="check_key_epoch_flip", file="tlexport/quic/quic_session.py", func="QuicSession.check_key_epoch",
+         select={"start": "if isserver:"}, params=[("key_phase_bit", "Option Nat"), ("isserver", "Bool")],
+         places=[("self.epoch_server", "epoch_server", "Nat", "rw"), ("self.last_key_phase_server", "last_key_phase_server", "Option Nat", "rw"),
+                 ("self.epoch_client", "epoch_client", "Nat", "rw"), ("self.last_key_phase_client", "last_key_phase_client", "Option Nat", "rw")]),
+    dict(name="check_key_epoch_extend_test", file="tlexport/quic/quic_session.py", func="QuicSession.check_key_epoch",
+         select={"if_test": "if self.epoch_client == len("}, params=[],
+         places=[("self.epoch_client", "epoch_client", "Nat", "r"), ("self.epoch_server", "epoch_server", "Nat", "r"),
+                 ("self.decryptors['Application']", "application", f"List {QDEC}", "r")]),
+    dict(name="packet_isserver", file="tlexport/quic/quic_session.py", func="QuicSession.packet_isserver",
+         params=[("dcid", "Bytes")], ret="Bool",
+         places=[("self.server_cids", "server_cids", "Set Bytes", "r"), ("self.client_cids", "client_cids", "Set Bytes", "r"),
+                 ("packet.ip_src", "ip_src", "Bytes", "r"), ("packet.sport", "sport", "Nat", "r"),
+                 ("self.client_ip", "client_ip", "Bytes", "r"), ("self.client_port", "client_port", "Nat", "r")]),
+    dict(name="matches_session_dgram", file="tlexport/quic/quic_session.py", func="QuicSession.matches_session_dgram",
+         params=[("ip_src", "Bytes"), ("ip_dst", "Bytes"), ("sport", "Nat"), ("dport", "Nat")], ret="Bool",
+         places=[("self.server_ip", "server_ip", "Bytes", "r"), ("self.server_port", "server_port", "Nat", "r"),
+                 ("self.client_ip", "client_ip", "Bytes", "r"), ("self.client_port", "client_port", "Nat", "r")]),
 ]
 
 THEOREMS = ["TLX.Props.Translated." + s["name"] + "_eq_model" for s in SPECS]
